@@ -147,3 +147,32 @@ class AddFieldFitsCheck:
     def ensures_an_accepted_position_lies_inside_the_bit_field(self, length, start_at):
         n = 1 if length is None else unopt(length)
         return start_at is None or (0 <= unopt(start_at) and unopt(start_at) + n <= self.length)
+
+
+@contract("rig/bitfield.py::BitField.add_field@forbody:0")
+class AddFieldOverlapCheck:
+    """ONE iteration of the loop over the fields that can be present together with the new one: an explicitly positioned new
+    field is rejected exactly when its bit range meets the range of an explicitly positioned other field."""
+    properties = ("C08",)
+    params = dict(identifier=TInt(), start_at=TInt(0, None), end_at=TInt(1, None), other_identifier=TInt(),
+                  other_field=_TRec("_Field", start_at=_TOpt(TInt(0, None)), length=_TOpt(TInt(1, None))))
+    fragment_result = ()
+    raises = {"ValueError": None}
+
+    def native(start_at, end_at, other_field):
+        raise __import__("pyvc.replay", fromlist=["OutsideHarness"]).OutsideHarness()
+
+    def requires(start_at, end_at):
+        return start_at < end_at
+
+    def raises_ValueError(start_at, end_at, other_field):
+        n = 1 if other_field.length is None else unopt(other_field.length)
+        return other_field.start_at is not None and exists_range(
+            max(start_at, unopt(other_field.start_at)), min(end_at, unopt(other_field.start_at) + n),
+            lambda bit: start_at <= bit < end_at and unopt(other_field.start_at) <= bit < unopt(other_field.start_at) + n)
+
+    def ensures_accepted_only_if_the_ranges_share_no_bit(start_at, end_at, other_field):
+        n = 1 if other_field.length is None else unopt(other_field.length)
+        return other_field.start_at is None or not exists_range(
+            min(start_at, unopt(other_field.start_at)), max(end_at, unopt(other_field.start_at) + n),
+            lambda bit: start_at <= bit < end_at and unopt(other_field.start_at) <= bit < unopt(other_field.start_at) + n)
